@@ -1,0 +1,7 @@
+//go:build !verif
+
+package pubsub
+
+// verifBeforeWait is a schedule point used only by the verification harness
+// (build tag verif). It is empty, and inlined away, in normal builds.
+func verifBeforeWait() {}
